@@ -31,8 +31,9 @@ pub fn hexpt(p: &FlatPt) -> Value {
 }
 
 /// Obligations common to both models about r, the cofactor and its inverse.
-fn order_obligations(ck: &mut Ck, r: &UInt, cof: &[u64], cof_inv: &UInt, q: &UInt) -> UInt {
+fn order_obligations(ck: &mut Ck, r: &UInt, cof: &[u64], cof_is_one: bool, cof_inv: &UInt, q: &UInt) -> UInt {
     let h = from_limbs(cof);
+    ck.ob(C_ORDER, "cofactor_is_one() == (COFACTOR == 1)", cof_is_one == (h == UInt::one()), || json!({"cofactor": hexu(&h), "cofactor_is_one()": cof_is_one}));
     ck.ob(C_ORDER, "ScalarField/prime", is_probable_prime(r, 64), || json!({"r": hexu(r)}));
     ck.ob(C_ORDER, "COFACTOR/Hasse", !h.is_zero() && hasse_ok(&(&h * r), q), || json!({"cofactor": hexu(&h), "r": hexu(r), "q": hexu(q)}));
     let ok = ((&h % r) * (cof_inv % r)) % r == UInt::one() && cof_inv < r;
@@ -88,7 +89,7 @@ pub fn check_sw(ck: &mut Ck, c: &SwC, rng: &mut Rng, npts: usize) -> bool {
         ck.ob(C_GEN, "GENERATOR/r*G=0", rg.is_none(), || json!({"r": hexu(&c.r), "generator": hexpt(&c.g)}));
     }
     let q = t.order(d);
-    let h = order_obligations(ck, &c.r, &c.cofactor, &c.cofactor_inv, &q);
+    let h = order_obligations(ck, &c.r, &c.cofactor, c.cofactor_is_one, &c.cofactor_inv, &q);
     // COFACTOR * r must annihilate every point of E(F_q)
     let n = &h * &c.r;
     let pts = (c.rand_points)(rng, npts);
@@ -152,7 +153,7 @@ pub fn check_te(ck: &mut Ck, c: &TeC, rng: &mut Rng, npts: usize) -> bool {
         let rg = e.mul(&g, &c.r);
         ck.ob(C_GEN, "GENERATOR/r*G=0", rg == Some(e.identity()), || json!({"r": hexu(&c.r), "generator": hexpt(&c.g), "law undefined on the way": rg.is_none()}));
     }
-    let h = order_obligations(ck, &c.r, &c.cofactor, &c.cofactor_inv, &p);
+    let h = order_obligations(ck, &c.r, &c.cofactor, c.cofactor_is_one, &c.cofactor_inv, &p);
     {
         let n = &h * &c.r;
         let pts = (c.rand_points)(rng, npts);
